@@ -62,6 +62,11 @@ CHECKS.update({
          "Held on K compiles / G gcc checks; the judge only flags definite inconsistencies.", "gcc 12 as the standard C compiler; the judge reads declarations only"),
 })
 
+CHECKS.update({
+ "C14": ("translation_validation", "for every @instr of exo.platforms.x86 an automatically built wrapper is compiled (gcc, ASan+UBSan, AVX2/AVX-512) and compared with the reference interpreter executing the same wrapper with the instruction's Exo body, over window placements, mask/size values and operand sets; load/store round trip guards the harness", "instr-vs-body", "3/C14",
+         "Translation validation per instruction: compiled expansion and Exo body agree on every exact-class input run.", "library load/store instructions as harness (validated by a round trip in every wrapper); gcc 12; this CPU's AVX2/AVX-512"),
+})
+
 PENDING = {
 }
 
